@@ -164,7 +164,29 @@ Fixpoint best (sy : syntax) (line : str) (cs : list mlc) (acc : option (mlc * N 
                   | None => acc end in
       best sy line tl acc'
   end.
-Definition find_ml_start (sy : syntax) (line : str) := best sy line (multi sy) None.
+(* earliest single-line comment prefix outside string literals (find_single_line_start) *)
+Fixpoint min_single (sy : syntax) (line : str) (ps : list str) : option N :=
+  match ps with
+  | [] => None
+  | p :: tl =>
+      match find_outside_string line p (has_rawstring sy), min_single sy line tl with
+      | Some q, Some a => Some (N.min q a)
+      | Some q, None => Some q
+      | None, r => r
+      end
+  end.
+Definition find_single_start (sy : syntax) (line : str) : option N := min_single sy line (single sy).
+
+(* an opener that lies after a line-comment prefix is comment text (fix d23d81a in /repo) *)
+Definition find_ml_start (sy : syntax) (line : str) : option (mlc * N * str) :=
+  match best sy line (multi sy) None with
+  | Some (c, p, e) =>
+      match find_single_start sy line with
+      | Some q => if q <? p then None else Some (c, p, e)
+      | None => Some (c, p, e)
+      end
+  | None => None
+  end.
 
 (* ---- MultiLineState ---- *)
 Inductive mls := NotIn | InC (depth : N) (sm em : str) (nest : bool).
